@@ -334,13 +334,14 @@ def onLastState (s : St) (p : Nat) (h : VH) (now : Nat) (boundary : Nat) (sample
 all blocks `[start, last)`" (`!has_all_blocks`); `f` is the first last-N header, `none` = accepted.
 When at most last-N blocks are missing (`last_number.saturating_sub(start_number) <= last_n_blocks`)
 all of them have to be there: 400.  Otherwise the server has dropped every requested difficulty:
-the last-N section has to be complete and no earlier block may reach the boundary (400), and no
+the last-N section has to be complete (more than last-N headers when more than last-N blocks
+follow the block that reaches the boundary) and no earlier block may reach the boundary (400), and no
 requested difficulty may lie before the section (451; the requested difficulties are increasing,
 the implementation looks at the first one). -/
 def checkNoSampled (lastN : Nat) (c : ReqContent) (f : VH) (lastNumber lastNCount : Nat) :
     Option Nat :=
   if ¬ lastN < lastNumber - c.startNumber then some 400
-  else if lastNCount ≠ lastN || c.boundary ≤ f.ptd then some 400
+  else if decide (lastNCount < lastN) || c.boundary ≤ f.ptd then some 400
   else match c.difficulties with
     | d :: _ => if d ≤ f.ptd then some 451 else none
     | [] => none
